@@ -261,6 +261,17 @@ class Observer:
         try:
             if via == "api":
                 schema = apply_api(schema, includes, excludes)
+            elif via == "api-forked":
+                # the same selection reached through a filtered base schema from which sibling schemas are derived as
+                # well (before and after): derivations must not leak into each other or into the base
+                first_inc, first_exc = (includes[:1], []) if includes else ([], excludes[:1])
+                base = apply_api(schema, first_inc, first_exc)
+                sibling_before = base.exclude(method="DELETE").include(path_regex="^/users")
+                list(sibling_before.get_all_operations())
+                schema = apply_api(base, includes[len(first_inc):], excludes[len(first_exc):])
+                sibling_after = base.exclude(method="GET")
+                list(sibling_after.get_all_operations())
+                self.base = (base, first_inc, first_exc)
             else:
                 args = cli_options(includes, excludes)
                 if args is None:
@@ -445,15 +456,31 @@ def run_shard(spec, emit):
         if time.monotonic() > deadline:
             emit.count("sets_skipped_budget")
             continue
-        for via in ("api", "cli"):
-            obs = observer.observe(includes, excludes, via)
+        for via in ("api", "cli", "api-forked"):
+            if via == "api-forked" and not (includes or excludes):
+                continue
+            try:
+                obs = observer.observe(includes, excludes, via)
+            except Exception as exc:
+                if via != "api-forked":
+                    raise
+                emit.count("forked_not_applicable")  # e.g. the distractor repeats a filter of the set (rejected)
+                continue
             if obs is None:
                 continue
+            if via == "api-forked":
+                emit.count("forked_derivations")
+                base, first_inc, first_exc = observer.base
+                base_ref = selection.selected(doc, first_inc, first_exc)
+                if base_ref is not None:
+                    base_labels = sorted(r.ok().label for r in base.get_all_operations() if isinstance(r, observer.Ok))
+                    if base_labels != sorted(base_ref[0]):
+                        emit.viol("C07/base-schema-selection-changed-by-derived-schemas", f"base offers {base_labels}, reference {sorted(base_ref[0])}", {"include": includes, "exclude": excludes, "via": via})
             expected, viols = judge_static(doc, includes, excludes, obs)
             if expected is None:
                 emit.count("not_judged")
                 continue
-            emit.count("cli_translations" if via == "cli" else "api_filter_sets")
+            emit.count({"cli": "cli_translations", "api": "api_filter_sets", "api-forked": "api_forked_filter_sets"}[via])
             if "transitions" in obs:
                 emit.count("state_machines_built")
             nontrivial = 0 < len(expected) < 7
@@ -463,7 +490,7 @@ def run_shard(spec, emit):
                 sample = {"include": includes, "exclude": excludes, "selected": sorted(expected), "statistic": {"ops": obs["ops"], "links": obs["links"]}}
             emit.case(sig=f"{via}|{includes}|{excludes}|{sorted(expected)}" if nontrivial else None, sample=sample)
             for key, what in viols:
-                emit.viol(key + (":cli" if via == "cli" else ""), what, {"include": includes, "exclude": excludes, "via": via})
+                emit.viol(key + (":cli" if via == "cli" else ":forked" if via == "api-forked" else ""), what, {"include": includes, "exclude": excludes, "via": via})
         # sampled full runs
         ref = selection.selected(doc, includes, excludes)
         if ref and 0 < len(ref[0]) < 7 and engine_budget > 0 and rng.random() < 0.5:
